@@ -54,6 +54,9 @@ def asm_sig(mode, e):
     return "%s %s" % (mode, e["ev"])
 
 
+REPS = 12
+
+
 def reproduce_asm(ctx, mode, rejects, replay_cmd="prog-replay", cap=25, sigfn=asm_sig, module="AsmTrace"):
     seen = {}
     for shard, idx in rejects:
@@ -67,7 +70,9 @@ def reproduce_asm(ctx, mode, rejects, replay_cmd="prog-replay", cap=25, sigfn=as
         e = min(evs, key=lambda x: len(json.dumps(x)))
         d = ctx.sub("asmrepro%d" % n)
         src = os.path.join(d, "in.ndjson")
-        open(src, "w").write(json.dumps(e) + "\n")
+        # the case is re-executed REPS times: a defect that shows only sometimes (map iteration order, scheduling) is still
+        # a behaviour of the real code; the first rejected repetition is reported together with the frequency
+        open(src, "w").write((json.dumps(e) + "\n") * REPS)
         ctx.run_harness([replay_cmd, "-in", src, "-out", os.path.join(d, "re")])
         re_file = os.path.join(d, "re.000.ndjson")
         r = ctx.tlc(module, cfg=module + ".cfg", env=dict(VERIF_TRACE=re_file, VERIF_MODE=mode, VERIF_EXPLAIN="1"))
@@ -83,14 +88,17 @@ def reproduce_asm(ctx, mode, rejects, replay_cmd="prog-replay", cap=25, sigfn=as
                           "%s: reproduced by repeating the deterministic generation (seed %s), not when the case is executed alone - "
                           "the code under test carries state over between calls: %s" % (e["ev"], payload["seed"], json.dumps({k: v for k, v in e.items() if k != "texts"})[:700]), payload)
             continue
-        e2 = read_line(re_file, 1)
-        expect = [p for p in r["prints"] if p[0] == "EXPECT"]
+        first = min(r["rejects"])
+        e2 = read_line(re_file, first)
+        expect = [p for p in r["prints"] if p[0] == "EXPECT" and p[1].startswith("%d," % first)] or [p for p in r["prints"] if p[0] == "EXPECT"]
+        freq = "" if len(r["rejects"]) == REPS else " [in %d of %d repetitions of the same call]" % (len(r["rejects"]), REPS)
+        sig += " (not every time)" if freq else ""
         if e2["ev"] == "prog":
             what = "program [%s] (dialect %s, M=%s): gmars results %s ; specification expects %s" % (
                 render_prog_brief(e2["p"])[:400], e2["p"]["dialect"], e2["p"]["M"], json.dumps(e2["res"])[:500], (expect[0][1] if expect else "?")[:500])
         else:
             what = "%s: %s" % (e2["ev"], json.dumps(e2)[:800])
-        ctx.violation(sig, what, dict(kind="asm", mode=mode, module=module, replay_cmd=replay_cmd, event=e2, texts=e2.get("texts"),
+        ctx.violation(sig, what + freq, dict(kind="asm", mode=mode, module=module, replay_cmd=replay_cmd, event=e2, texts=e2.get("texts"),
                                       spec_expected=expect[0][1] if expect else None, others_with_same_signature=len(evs) - 1))
 
 
@@ -110,7 +118,7 @@ def replay_rerun(ctx, payload):
 def replay_asm(ctx, payload):
     d = ctx.sub("replay")
     src = os.path.join(d, "in.ndjson")
-    open(src, "w").write(json.dumps(payload["event"]) + "\n")
+    open(src, "w").write((json.dumps(payload["event"]) + "\n") * REPS)
     ctx.run_harness([payload.get("replay_cmd", "prog-replay"), "-in", src, "-out", os.path.join(d, "re")])
     module = payload.get("module", "AsmTrace")
     r = ctx.tlc(module, cfg=module + ".cfg", env=dict(VERIF_TRACE=os.path.join(d, "re.000.ndjson"), VERIF_MODE=payload["mode"]))
